@@ -1,4 +1,8 @@
 import SqlObjVerif.Lemmas.Version
+import SqlObjVerif.Lemmas.VersionXRestore
+import SqlObjVerif.Lemmas.VersionXGet
+import SqlObjVerif.Lemmas.VersionXNext
+import SqlObjVerif.Lemmas.VersionXCAdd
 /-!
 # C20 — versioning records the exact history of a row and can restore any point; versions of
 different masters never mix
@@ -155,5 +159,163 @@ example :
     ∧ versionsOf (vrun c vinit ops) 1 = [[.int 1, .int 101], [.int 1, .int 5], [.int 9, .int 5]]
     ∧ rowOf? (vrun c vinit ops).masters 1 = some [.int 1, .int 101]
     ∧ versionsOf (vrun c vinit ops) 2 = [[.int 2, .int 101]] := by decide
+
+/-! ## the model is what the SOURCE says: `sqlobject/versioning/__init__.py` as TRANSLATED on this run
+
+`rowUpdateX`, `restoreX`, `getX`, `selectX` run the PyVersion programs the translator (`vlib/extractors/pyversion.py`)
+produced from /repo's AST on this very run (`Extracted/PyVersion.lean`), under the reference semantics of
+`Model/PyVersion.lean`, against the interface stated in the header of `Model/VersionX.lean` (calls into SQLObject:
+`asDict`, the constructor, `get`, `set` below its signal, `SQLObject.select`).  `X.OK`: the column keywords are distinct,
+one per column, none of them `id` / `masterID` / `dateArchived`. -/
+
+/-- **`Versioning.rowUpdate` (the RowUpdateSignal listener) is the snapshot step of the model's update**: run on the
+    master instance `(d, m)` whose row is `row`, the translated listener appends exactly one version row — next version
+    id, filed under `m`, holding `row` (the values BEFORE the update) — to the version table of the instance's own
+    connection `d` and changes nothing else; and the model's `vUpdateVec` is that state followed by the rest of
+    `SQLObject.set` (validation, unknown keywords, UPDATE), for every column vector. -/
+theorem C20_translated_rowUpdate_eq_model (X : Ctx) (hX : X.OK) (w : XW) (d m : Nat) (row : List Val) (kwargs : PVal)
+    (hr : rowOf? (w.S d).masters m = some row) (hlen : row.length = X.names.length) :
+    rowUpdateX X w (.inst d 0 m) kwargs = .ret (w.setS d (snap (w.S d) m row)) .none [.inst d 0 m, kwargs]
+    ∧ ∀ vec unk, vUpdateVec X.c (w.S d) m vec unk = setRest X.c (snap (w.S d) m row) m row vec unk := by
+  refine ⟨rowUpdateX_eq X hX w d m row kwargs hr hlen, ?_⟩
+  intro vec unk
+  rw [vUpdateVec_eq_setRest, hr]
+
+/-- **`Version.restore` is the model's restore step**: run on the version instance `(d, vid)` (row `v`), the translated
+    method — `asDict`, the deletions of `id` / `masterID` / `dateArchived` / every `extraCols` key, `masterClass.get(masterID,
+    connection=self._connection).set(**values)` where `set` sends RowUpdateSignal to the TRANSLATED `rowUpdate` and goes
+    on as `SQLObject.set` — leaves every database and yields the outcome exactly as `dstep … (.restore vid)` does: only
+    database `d` changes, by `vRestore`. -/
+theorem C20_translated_restore_eq_model (X : Ctx) (hX : X.OK) (w : XW) (d vid : Nat) (v : VRow)
+    (hv : (w.S d).versions.find? (fun r => r.vid = vid) = some v) (hvl : v.vals.length = X.names.length)
+    (hrl : ∀ row, rowOf? (w.S d).masters v.master = some row → row.length = X.names.length) :
+    outOf (restoreX X w d vid) = some (dstep X.c w.S d (.restore vid)) :=
+  restoreX_eq X hX w d vid v hv hvl hrl
+
+/-- **`Versioning.__get__` (`obj.versions`) is the model's `versionsOf`**: the translated descriptor returns the select
+    over the version class with the clause `masterID == obj.id` through `obj`'s OWN connection, whose rows are the
+    versions of `m` in database `d` in id order; no table changes (`Version.select`, translated too, may give the
+    version class the master's connection).  `__get__(None, …)` returns the descriptor. -/
+theorem C20_translated_get_eq_model (X : Ctx) (w : XW) (d m : Nat) (ty : PVal) :
+    getX X w (.inst d 0 m) ty = .ret (withConn X w) (getSel d m (withConn X w).vconn) [.inst d 0 m, ty]
+    ∧ (withConn X w).S = w.S
+    ∧ (selRows (withConn X w) (getSel d m (withConn X w).vconn)).map (fun l => l.map (·.vals)) = some (versionsOf (w.S d) m)
+    ∧ getX X w .none ty = .ret w vobj [.none, ty] := by
+  refine ⟨getX_eq X w d m ty, withConn_S X w, ?_, getX_none X w ty⟩
+  rw [getSel_rows, withConn_S]
+
+/-- **`Version.select` (classmethod)**: gives the version class the master class's connection when it has none, then is
+    `SQLObject.select(clause, *args, **kw)`. -/
+theorem C20_translated_select_eq_model (X : Ctx) (w : XW) (clause rest kw : PVal) (l : List PVal)
+    (hl : rest.toList = some l) :
+    selectX X (.cls 1) w clause rest kw
+      = .ret (withConn X w) (.obj "select" (.pair (.cls 1) (PyVer.Val.ofList (clause :: l))) (.pair kw (withConn X w).vconn))
+          [clause, rest, kw] :=
+  selectX_eq X w clause rest kw l hl
+
+/-- non-vacuity: a concrete configuration satisfies `X.OK`, and the translated `restore` / `rowUpdate` / `__get__` run
+    to the end on a concrete world -/
+example :
+    let X : Ctx := ⟨⟨2, [.int 100, .int 101], false⟩, ["c0", "c1"], ["note"], "M", .conn 0, fun _ _ => .nat 7, fun _ _ _ => .str "x"⟩
+    let s : VState := vrun X.c vinit [.create [(0, .int 1)], .assign 1 1 (.int 5)]
+    let w : XW := ⟨fun d => if d = 0 then s else vinit, .conn 0⟩
+    X.OK
+    ∧ (outOf (restoreX X w 0 1)).map (fun p => ((p.1 0).masters, (p.1 0).versions, p.2))
+        = some ([(1, [.int 1, .int 101])], [⟨1, 1, [.int 1, .int 101]⟩, ⟨2, 1, [.int 1, .int 5]⟩], .ok)
+    ∧ (outOf (rowUpdateX X w (.inst 0 0 1) .none)).map (fun p => ((p.1 0).versions, p.2))
+        = some ([⟨1, 1, [.int 1, .int 101]⟩, ⟨2, 1, [.int 1, .int 5]⟩], .ok) :=
+  ⟨⟨rfl, by decide, by decide⟩, by decide, by decide⟩
+
+/-! ### the remaining methods of `Version`, translated -/
+
+/-- **`Version.nextVersion` as translated**: the version of the same master with the next larger id, else the master.
+    The lookup goes through the version CLASS's connection `k` (`self.select(…)` passes no `connection=`) — not through
+    the version's own connection `d`; only the fall-back `self.master` is on `d`. -/
+theorem C20_translated_nextVersion_eq_model (X : Ctx) (w : XW) (d vid k : Nat) (v : VRow)
+    (hv : (w.S d).versions.find? (fun r => r.vid = vid) = some v) (hk : (withConn X w).vconn = .conn k) :
+    nextVersionX X (.inst d 1 vid) w = .ret (withConn X w)
+      (match ((w.S k).versions.filter fun r => decide (r.master = v.master) && decide (vid < r.vid)).head? with
+       | some r => .inst k 1 r.vid
+       | none => .inst d 0 v.master) [] :=
+  nextVersionX_eq X w d vid k v hv hk
+
+/-- **`Version.__getattr__` as translated**: a name normal lookup did not find is read from the master instance on the
+    version's own connection. -/
+theorem C20_translated_getattr_eq_model (X : Ctx) (w : XW) (d vid : Nat) (v : VRow) (n : String)
+    (hv : (w.S d).versions.find? (fun r => r.vid = vid) = some v) :
+    getattrX X w d vid (.str n) = retOf w [.str n] (xAttr X w (.inst d 0 v.master) n) :=
+  getattrX_eq X w d vid v n hv
+
+/-- `Version.getChangedFields` is translated and runs (the title-cased names of the columns in which the version
+    differs from its successor); no general theorem is stated for it -/
+example :
+    let X : Ctx := ⟨⟨2, [.int 100, .int 101], false⟩, ["c0", "c1"], [], "M", .conn 0, fun _ _ => .nat 7, fun _ _ _ => .none⟩
+    let s : VState := vrun X.c vinit [.create [(0, .int 1)], .assign 1 1 (.int 5), .assign 1 0 (.int 6)]
+    let w : XW := ⟨fun d => if d = 0 then s else vinit, .conn 0⟩
+    (match getChangedFieldsX X w 0 1 with | .ret _ v _ => some v | _ => none) = some (.cons (.str "C1") .nil)
+    ∧ (match getChangedFieldsX X w 0 2 with | .ret _ v _ => some v | _ => none) = some (.cons (.str "C0") .nil) := by
+  decide +kernel
+
+/-! ### the class-construction half of the module, translated (`Model/VersionXC.lean`: world = attributes set on the
+descriptor and the version class, the `_kw` dicts of the column definitions, the `events.listen` registrations, the
+classes made by `type(…)`) -/
+
+open SqlObjVerif.VersionC in
+/-- **`getColumns` as translated, calling itself along `parentClass`** (any depth `< n`): the dict passed in comes back
+    with, for every column definition of the class and of its ancestors, a NEW definition of the same `Col` class made
+    from a COPY of its keywords without `alternateID` / `unique` (a `ForeignKey` `xID` filed under `x`) —
+    `versionCols` — and the world is unchanged: the master's own definitions (`kw`) keep their constraints, which is
+    why the model's `dupl` still applies to the master table while version rows are appended unconditionally. -/
+theorem C20_translated_getColumns_eq_model (X : CX) (w : CW) (n c : Nat) (cols : PVal) (h : depthOK X n c) :
+    getColumnsN X n w (.dictv cols) (.cls c) = .ret w .none [.dictv (versionCols X w n c cols), .cls c] :=
+  getColumnsN_eq X w n c cols h
+
+open SqlObjVerif.VersionC in
+/-- the copied keywords carry neither `unique` nor `alternateID` (for a dict: keys are distinct) -/
+theorem C20_translated_getColumns_strips (b : PVal) (h : (PyVer.vdKeys b).Nodup) :
+    PyVer.vdHas (.str "unique") (stripKw b) = false ∧ PyVer.vdHas (.str "alternateID") (stripKw b) = false :=
+  stripKw_clean b h
+
+open SqlObjVerif.VersionC in
+/-- **`Versioning.__addtoclass__` as translated**: stores `name` / `soClass`; makes ONE class `<Master>Versions` with base
+    `Version` and the attributes `dateArchived = DateTimeCol(default=datetime.now)`, `master = ForeignKey(<Master>)`,
+    `masterClass`, `extraCols`, the stripped copies of the master's (and its ancestors') column definitions, then the
+    extra columns; gives it the master's `_connection` when the master's class body set one; and registers exactly two
+    listeners on the master class, in this order: `createTable` for CreateTableSignal, `rowUpdate` for RowUpdateSignal.
+    Nothing else changes (`addedWorld`; in particular `kw`, the master's column definitions). -/
+theorem C20_translated_addtoclass_eq_model (X : CX) (w : CW) (n c : Nat) (name e : PVal) (hd : depthOK X n c)
+    (he : w.attrs VersionC.vobj "extraCols" = some (.dictv e)) :
+    addtoclassX X n w (.cls c) name = .ret (addedWorld X w n c name e) .none [.cls c, name]
+    ∧ (addedWorld X w n c name e).kw = w.kw
+    ∧ (addedWorld X w n c name e).listeners = w.listeners ++
+        [(meth VersionC.vobj "createTable", .cls c, glob "events.CreateTableSignal"),
+         (meth VersionC.vobj "rowUpdate", .cls c, glob "events.RowUpdateSignal")] := by
+  refine ⟨addtoclassX_eq X w n c name e hd he, ?_, rfl⟩
+  unfold addedWorld
+  cases X.hasConn c <;> rfl
+
+open SqlObjVerif.VersionC in
+/-- **`Versioning.__init__`, `createTable` (CreateTableSignal listener), `createVersionTable` as translated** -/
+theorem C20_translated_setup_eq_model (X : CX) (w : CW) (e conn extra post cls : PVal) (c vc : Nat) :
+    initX X w e = .ret (w.setAttr VersionC.vobj "extraCols" (if PyVer.pyBool e then e else .dictv .nil)) .none [e]
+    ∧ (w.attrs VersionC.vobj "soClass" = some (.cls c) → PyVer.isListVal post = true →
+        createTableX X w (.cls c) conn extra post
+          = .ret w .none [.cls c, conn, extra, PyVer.vAppend post (meth VersionC.vobj "createVersionTable")])
+    ∧ (w.attrs VersionC.vobj "versionClass" = some (.cls vc) →
+        createVersionTableX X w cls conn = .ret { w with created := w.created ++ [(.cls vc, conn)] } .none [cls, conn]) :=
+  ⟨initX_eq X w e, createTableX_eq X w c conn extra post, createVersionTableX_eq X w vc cls conn⟩
+
+/-- non-vacuity: a master with a `unique` column, a foreign key and a parent class -/
+example :
+    let X : VersionC.CX := ⟨fun c => if c = 0 then [⟨"c0", "IntCol", false⟩, ⟨"ownerID", "ForeignKey", true⟩] else
+        if c = 5 then [⟨"p0", "StringCol", false⟩] else [], fun c => if c = 0 then some 5 else none,
+      fun c => if c = 0 then "M" else "P", fun c => if c = 0 then some (.conn 3) else none⟩
+    let w : VersionC.CW := ⟨fun _ _ => none, fun c j => if c = 0 ∧ j = 0 then
+        VersionC.kwBody [("default", .int 100), ("unique", .bool true)] else .nil, [], [], []⟩
+    VersionC.depthOK X 2 0
+    ∧ PyVer.vdKeys (VersionC.versionCols X w 2 0 .nil) = [.str "c0", .str "owner", .str "p0"]
+    ∧ PyVer.vdGet (.str "c0") (VersionC.versionCols X w 2 0 .nil)
+        = some (VersionC.newcol "IntCol" [] (VersionC.kwBody [("default", .int 100)])) := by
+  refine ⟨by simp [VersionC.depthOK], by decide, by decide⟩
 
 end SqlObjVerif.Version
